@@ -205,7 +205,7 @@ def main(chk, tier, seed, pid="C03"):
     chk.rule = RULE if pid == "C03" else RULE_C04
     chk.assumptions = ["logical per-component cycle cuts (see pv/lsrun.py) stand for the aligned instants of the statement",
                        "cost oracle from harness tables incl. variable costs", "per-channel FIFO delivery"]
-    n = 2000 if tier == "quick" else 20000
+    n = 2000 if tier == "quick" else 100000
     common.run_chunked(chk, "c03", n, nchunks=16 if tier == "quick" else 64,
                        job_extra={"nsched": 2 if tier == "quick" else 3, "pid": pid}, timeout=3000)
     if pid == "C03":
